@@ -18,7 +18,7 @@ for d in sorted(os.listdir(os.path.join(VERIF, "seeded"))):
     others = [p for p in m.get("caught_by", []) if p != m["property"]]
     rows.append("| %s | %s | %s | %s | %s |" % (d, notes, "**yes**" if m["property"] in m.get("caught_by", []) else "NO", cls, ", ".join(others) or "–"))
 text = []
-text.append("480 changes were written in eight rounds by independent sub-agents, each given only the text of one property and a")
+text.append("540 changes were written in nine rounds by independent sub-agents, each given only the text of one property and a")
 text.append("scratch worktree of /repo (nothing from /verif).  Round 1 asked for three subtle test-surviving changes per property; round 2 for")
 text.append("one change each of the styles *state across calls*, *rare argument / class / option*, *cooperating sites or failure path*; round 3 for")
 text.append("*one copy / one class only*, *feature interaction* and *sneakiest*; round 4 for *indirect* (anchor files untouched), *data dependent*")
@@ -26,24 +26,29 @@ text.append("and *order dependent*; round 5 for changes disguised as a *refactor
 text.append("optimisation* and a *robustness / compatibility fix*; round 6 for *configuration / mode dependent*, *modernisation* (py3 idioms with one")
 text.append("non-equivalent rewrite) and *wildcard*; round 7 for a *feature addition* whose plumbing changes existing calls, a *bug-fix regression*")
 text.append("(an invented report fixed in a hurry) and an *indirect / cross-module* change (shared helper or two harmless-alone edits); round 8 for")
-text.append("*scalar arguments: boundary and type*, *error path only* and *laziness, aliasing and timing*.")
+text.append("*scalar arguments: boundary and type*, *error path only* and *laziness, aliasing and timing*; round 9 for *hardening / sanitising*,")
+text.append("*diagnostics* (logging, richer messages, eager repr) and *resources and process-wide state*.")
 text.append("A change is kept under `seeded/<id>/` only after `tools/seed_eval.py` confirmed in a fresh scratch worktree")
 text.append("that the patch applies, the 160 baseline tests still pass and the demonstration exits 1 with / 0 without the change; then the")
 text.append("property's quick check (and related ones) is run with `--repo <worktree>`.")
 text.append("")
 text.append("First-evaluation results (own property check): round 1 caught 43 of 60, round 2 53 of 60, round 3 59 of 60, round 4 54 of 60, round 5 59 of 60,")
-text.append("round 7 42 of 60 and round 8 40 of 60 (both evaluated blind).  Round 6 was not evaluated blind: its authors' notes were read first, about 17 misses were predicted")
+text.append("round 7 42 of 60, round 8 40 of 60 and round 9 38 of 60 (all three evaluated blind; in round 9 two of the 38 were caught by the deep-chain workload that was added while the evaluation of the structural properties was still running).  Round 6 was not evaluated blind: its authors' notes were read first, about 17 misses were predicted")
 text.append("from them and the machinery was strengthened before the first run, which then caught 58 of 60.")
 text.append("Every miss was analysed and led to the additions of section 9 (value-semantics / falsy node classes, stale memos only visible on")
 text.append("re-used objects, restricted re-entrant hooks, deep spines, falsy constructor parents, wildcard characters in names, `None` /")
 text.append("unhashable / NaN / tuple values, exporter / resolver / RenderTree / predicate objects re-used across changes and aborted calls,")
 text.append("library spins and unexpected exceptions as witnesses, observer-effect-free calls on fresh nodes, recording hooks that chain to")
 text.append("hooks defined by library classes, histories that report a forest left inconsistent; rounds 6-8: sections 9.4c - 9.4e).  The table shows the state after them:")
-text.append("475 of 480 are caught by the check of their own property.  Deliberately not covered, because what they need lies outside the property")
+text.append("532 of 540 are caught by the check of their own property.  Deliberately not covered, because what they need lies outside the property")
 text.append("statements: `C06-m6` (an iterator object re-used after its `stop` callback raised on the very first `next()`), `C06-m22` and `C13-m22`")
 text.append("(a *float* `maxlevel` such as `2.0`; the documented type is int - int subclasses such as bool / IntEnum-like values are covered),")
 text.append("`C05-m24` (the consumer attaches children to the node it has just received, i.e. the tree changes *during* one iteration) and `C04-m23`")
-text.append("(a NodeMixin node attached below a LightNodeMixin node: mixed trees cannot be built with the unchanged library either, see section 7.3).")
+text.append("(a NodeMixin node attached below a LightNodeMixin node: mixed trees cannot be built with the unchanged library either, see section 7.3);")
+text.append("`C01-m26`, `C03-m26` and `C16-m26` (diagnostic code that formats a node with `%r` in the middle of a structural call) need a user")
+text.append("`__repr__` that raises for detached nodes (or warnings turned into errors): with such a class the refusals of the *unchanged* library,")
+text.append("whose messages format the node as well, already raise the repr's exception instead of TreeError / LoopError, so the exception clauses")
+text.append("cannot be judged for it; a repr that only fails while the two link directions disagree is covered (`ReprLM`, section 9.4f).")
 text.append("")
 text.append("False-alarm test: fifteen behaviour-preserving refactorings written by another independent sub-agent (given all twenty property")
 text.append("texts; `seeded/equivalent/e01..e15`: non-recursive iterators, in-place detach by identity, restructured loop/duplicate checks,")
